@@ -5,11 +5,18 @@
    irrelevant; a kept tag is written back as Token.String of the token with the filtered attributes,
    an accepted attribute is kept with its value unchanged by the filtering loop.
    Not true as stated for pattern rules: an explicit entry for an element shadows the rules it got
-   through patterns (recorded finding F11).  Missing: byte-for-byte identity of whole conforming
-   documents (needs Html/RoundTrip); carried by the pass-through oracle. *)
+   through patterns (recorded finding F11).
+   Proved for whole documents (C07_pass_through), for every policy and matcher interpretation: a
+   document that is the canonical serialisation (Token.String of tags with lower-case names and
+   keys, escaped text) of items the policy leaves alone -- every tag names an allowed element that
+   is not a raw-text element, its attribute list is a fixpoint of the attribute filter, it is bare
+   only if allowed bare -- is returned byte for byte.  Concrete instance: Properties/C04.v,
+   C04_sample_doc_unchanged (UGCPolicy).  The attributes the policy instructs the sanitiser to add
+   or rewrite are exactly what makes an attribute list fail to be a fixpoint.
+   Missing: documents with comments or raw-text elements; carried by the pass-through oracle. *)
 From Coq Require Import List NArith Bool Permutation.
 Import ListNotations.
-From BM Require Import Bytes Strings Tokenizer Policy Attrs Loop Builder AttrsSound MapProofs MiscProofs.
+From BM Require Import Bytes Strings Tokenizer Policy Attrs Loop Builder AttrsSound MapProofs MiscProofs Retokenize PassThrough.
 
 Section C07.
   Variables M U R : Type.
@@ -31,8 +38,26 @@ Section C07.
     (key_is (B"style") a && has_style_policies I p elem = false) ->
     rules_accept I aps a = true -> filter_attr I p elem aps (has_style_policies I p elem) a = [a].
   Proof. intros elem aps a Hd Hs Hr. unfold filter_attr. rewrite Hd, Hs, Hr. reflexivity. Qed.
+
+  Theorem C07_pass_through : forall its, Forall item_ok its -> Forall (canon_item I p) its ->
+    sanitize_bytes I p (render_items its) = render_items its.
+  Proof. exact (pass_through I p). Qed.
+
+  (* an attribute list made only of accepted, non-rewritten attributes is a fixpoint of the filter
+     loop (the first stage of sanitizeAttrs) *)
+  Theorem C07_filter_fixpoint : forall elem aps attrs,
+    Forall (fun a => (allowDataAttributes p && is_data_attribute (akey a) = false) /\
+                     (key_is (B"style") a && has_style_policies I p elem = false) /\
+                     rules_accept I aps a = true) attrs ->
+    flat_map (filter_attr I p elem aps (has_style_policies I p elem)) attrs = attrs.
+  Proof.
+    intros elem aps attrs H. induction H as [|a l (Hd & Hs & Hr) Hl IH]; cbn [flat_map]; [reflexivity|].
+    rewrite IH. rewrite (C07_accepted_attr_unchanged elem aps a Hd Hs Hr). reflexivity.
+  Qed.
 End C07.
 
 Print Assumptions C07_any_rule_suffices_partial.
 Print Assumptions C07_additive.
 Print Assumptions C07_accepted_attr_unchanged.
+Print Assumptions C07_pass_through.
+Print Assumptions C07_filter_fixpoint.
